@@ -116,11 +116,16 @@ class BaseSDESolver(metaclass=better_abc.ABCMeta):
                 next_t = min(curr_t + step_size, ts[-1])
                 if self.adaptive:
                     # Take 1 full step.
-                    next_y_full, _ = self.step(curr_t, next_t, curr_y, curr_extra)
+                    next_y_full, next_extra_full = self.step(curr_t, next_t, curr_y, curr_extra)
                     # Take 2 half steps.
                     midpoint_t = 0.5 * (curr_t + next_t)
-                    midpoint_y, midpoint_extra = self.step(curr_t, midpoint_t, curr_y, curr_extra)
-                    next_y, next_extra = self.step(midpoint_t, next_t, midpoint_y, midpoint_extra)
+                    if curr_t < midpoint_t < next_t:
+                        midpoint_y, midpoint_extra = self.step(curr_t, midpoint_t, curr_y, curr_extra)
+                        next_y, next_extra = self.step(midpoint_t, next_t, midpoint_y, midpoint_extra)
+                    else:
+                        # A (clipped final) step one unit in the last place long cannot be halved: one of the half
+                        # steps would have zero length (and divide by dt=0 in SRK / derivative-free Milstein).
+                        next_y, next_extra = next_y_full, next_extra_full
 
                     # Estimate error based on difference between 1 full step and 2 half steps.
                     with torch.no_grad():
